@@ -24,6 +24,8 @@ def harnesses():
         out["C12"].extend(m.groups())
     for m in re.finditer(r"tuple_rt!\((\w+),", src):
         out["C12"].append(m.group(1))
+    for m in re.finditer(r"tuple_arity!\((\w+), (\w+),", src):
+        out["C12"].extend(m.groups())
     out["C12"] = [h for h in out["C12"] if not h.startswith("$")]
     # feature-gated value types (cargo feature `types`): thorough tier
     out["C12_types"] = re.findall(r"boxed!\((ft_\w+),", src)
